@@ -56,12 +56,33 @@ def rng_for(prop, master, *parts):
 
 
 def ensure_env():
-    """Re-exec once so that hash order and bytecode writing are pinned."""
-    if os.environ.get('PYTHONHASHSEED') is None or os.environ.get('PYTHONDONTWRITEBYTECODE') != '1':
+    """Re-exec once so that hash order and bytecode writing are pinned.
+
+    PYTHONHASHSEED is forced to VERIF_HASHSEED (default 0) whatever the caller's environment says: the
+    subject's dependencies are allowed to depend on string-hash order (jsonschema picks one of several
+    equally relevant errors for its message by set order), so search, oracle and replay must share it.
+    The determinism self-tests pass another VERIF_HASHSEED to prove that the *harness* does not care."""
+    want = os.environ.get('VERIF_HASHSEED', '0')
+    if os.environ.get('PYTHONHASHSEED') != want or os.environ.get('PYTHONDONTWRITEBYTECODE') != '1':
         env = dict(os.environ)
-        env.setdefault('PYTHONHASHSEED', '0')
+        env['PYTHONHASHSEED'] = want
         env['PYTHONDONTWRITEBYTECODE'] = '1'
         os.execve(sys.executable, [sys.executable] + sys.argv, env)
+
+
+HASH_ORDER_DEPENDENT_MESSAGES = ('SchemaError', 'ValidationError', 'RefResolutionError')
+
+
+def canon_outcome(o):
+    """Outcome with the hash-order dependent part removed (the text of jsonschema's error messages);
+    used for determinism fingerprints only - the oracles compare full outcomes under one pinned seed."""
+    if isinstance(o, (list, tuple)):
+        if len(o) == 3 and o[0] == 'exc' and o[1] in HASH_ORDER_DEPENDENT_MESSAGES:
+            return [o[0], o[1]]
+        return [canon_outcome(x) for x in o]
+    if isinstance(o, set):
+        return sorted((canon_outcome(x) for x in o), key=repr)
+    return o
 
 
 def import_athlib():
